@@ -469,9 +469,9 @@ Section Cmds.
         intros Hba. congruence. }
       destruct r'; try triv_post.
       - destruct (Cur_call_n K PostC (KDropValue o) _ _ _ _ _ _ _ _ _ eq_refl (Cur_weaken_ex _ _ _ _ _ _ _ _ C1) HP (fun o => le_n _) (or_intror eq_refl)) as [C2 Ho].
-        destruct Ho as (y & x2 & Hy & Hx2 & Hv2 & _). apply ok_post'. apply Hcl; [exact C2 | eauto].
+        destruct Ho as (_ & y & x2 & Hy & Hx2 & Hv2 & _). apply ok_post'. apply Hcl; [exact C2 | eauto].
       - destruct (Cur_call_p K PostC (KDropValue o) _ _ _ _ _ _ _ _ _ eq_refl (Cur_weaken_ex _ _ _ _ _ _ _ _ C1) HP (fun o => le_n _) (or_intror eq_refl)) as [C2 Ho].
-        destruct Ho as (y & x2 & Hy & Hx2 & Hv2 & _).
+        destruct Ho as (_ & y & x2 & Hy & Hx2 & Hv2 & _).
         pose proof (Hcl _ _ C2 (ex_intro _ x2 (conj Hx2 Hv2))) as C3. cbn [fst snd]. fin C3.
     Qed.
   End Res3.
